@@ -120,7 +120,7 @@ type smapIter struct {
 func (it *smapIter) next(i *interpreter, fr *frame) tuple {
 	for len(it.keys) > 0 {
 		k := 0
-		if i.opts.MapOrder && len(it.keys) > 1 {
+		if i.opts.MapOrder && len(it.keys) > 1 && i.mapOrderHere(fr) {
 			k = i.path.choose("map", len(it.keys))
 		}
 		key := it.keys[k]
@@ -171,4 +171,24 @@ func (it *strIter) next(i *interpreter, fr *frame) tuple {
 
 func decodeRuneConcrete(s string) (rune, int) {
 	return utf8.DecodeRuneInString(s)
+}
+
+// mapOrderHere reports whether the iteration order of a range statement in fr is explored.
+func (i *interpreter) mapOrderHere(fr *frame) bool {
+	if len(i.opts.MapOrderPkgs) == 0 {
+		return true
+	}
+	for f := fr; f != nil; f = f.caller {
+		fn := f.fn
+		for fn.Parent() != nil {
+			fn = fn.Parent()
+		}
+		if fn.Pkg != nil {
+			return hasPrefixAny(fn.Pkg.Pkg.Path(), i.opts.MapOrderPkgs)
+		}
+		if o := fn.Origin(); o != nil && o.Pkg != nil {
+			return hasPrefixAny(o.Pkg.Pkg.Path(), i.opts.MapOrderPkgs)
+		}
+	}
+	return false
 }
